@@ -132,7 +132,7 @@ Build(c) == CASE c.lim = "width" -> WidthProg(c) [] c.lim = "lines" -> LinesProg
 VARIABLE lcase
 LInit == /\ lcase \in Cases
          /\ prog = Build(lcase).p /\ phase = "done" /\ nfun = 0 /\ body = 0 /\ open = <<>> /\ elseOK = 0 /\ ndecl = 0
-         /\ viol = NoViol /\ scope = << [name |-> "GlobalScope", multi |-> FALSE] >>
+         /\ viol = NoViol /\ scope = << [name |-> "GlobalScope", multi |-> FALSE] >> /\ wrapped = FALSE
 LNext == UNCHANGED <<nvars, lcase>>
 LSpec == LInit /\ [][LNext]_<<nvars, lcase>>
 
